@@ -37,6 +37,8 @@ const PARSE_MSGS: &[&str] = &[
     "number too large to fit in target type",
     "number too small to fit in target type",
     "provided string was not `true` or `false`",
+    "invalid float literal",
+    "cannot parse float from empty string",
 ];
 
 /// Maps a serde error message to its kind. `detail`: 1 = key known (query), 0 = kind only (form).
@@ -185,6 +187,33 @@ fn op_query(req: &Json) -> Json {
         Err(ExtractQueryParamsError::QueryDeserializationError(e)) => classify_msg(&e.to_string(), 1),
         Err(_) => json!({"r": "err", "kind": "other"}),
     }, else bad_op())
+}
+
+/// A float field `x` (f32 / f64) of `PathParams` (route `/{x}`, request path `/<raw>`) or `QueryParams` (`?x=<raw>`),
+/// through the real extractors; the answer is the bit pattern of the extracted value.
+fn op_pfloat(req: &Json) -> Json {
+    let (Some(raw), Some(bits), Some(w)) = (
+        bytes_of(req.get("raw")),
+        req.get("bits").and_then(|v| v.as_u64()),
+        req.get("where").and_then(|v| v.as_str()),
+    ) else {
+        return bad_op();
+    };
+    let shape = if bits == 32 { "PF32" } else { "PF64" };
+    let inner = if w == "path" {
+        let mut path = b"/".to_vec();
+        path.extend_from_slice(&raw);
+        op_path(&json!({"path": path, "shape": shape, "route": [{"param": "x"}]}))
+    } else {
+        let mut q = b"x=".to_vec();
+        q.extend_from_slice(&raw);
+        op_query(&json!({"q": q, "shape": shape}))
+    };
+    match inner.get("r").and_then(|v| v.as_str()) {
+        Some("ok") => json!({"r": "ok", "fbits": inner["v"]["x"]["fbits"]}),
+        Some("err") => json!({"r": "err", "kind": inner["kind"]}),
+        _ => inner,
+    }
 }
 
 /// The only public way to a `BufferedBody` is the real buffering routine (cfg-gated forwarder to
@@ -350,6 +379,7 @@ async fn handle(req: Json) -> Json {
             None => bad_op(),
         },
         "scalar" => op_scalar(req),
+        "pfloat" => op_pfloat(req),
         "path" => op_path(req),
         "query" => op_query(req),
         "form" => op_form(req).await,
